@@ -1199,6 +1199,9 @@ func TestVerifReplay(t *testing.T) {
 			for _, html := range []bool{false, true} {
 				var buf bytes.Buffer
 				` + fn + `(&buf, in, html)
+				if !utf8.Valid(buf.Bytes()) {
+					t.Fatalf("input %q (escapeHTML=%v): output %q is not valid UTF-8, so not a JSON text", in, html, buf.Bytes())
+				}
 				var got string
 				if err := json.Unmarshal(buf.Bytes(), &got); err != nil {
 					t.Fatalf("input %q (escapeHTML=%v): output %q is not a JSON string: %v", in, html, buf.Bytes(), err)
